@@ -1,4 +1,5 @@
 import Lemmas.Forks
+import Lemmas.Linear
 import Props.C11
 /-!
 # C03 — Reorgs: undo restores every store; clients converge on the canonical chain
@@ -129,7 +130,7 @@ theorem payloads_are_block_outputs (fcfg : FCfg) (st0 : LState) (steps : List FS
     (payloadChain fcfg st0 steps).map key = canonChain steps ∧
     ∀ h ∈ payloadChain fcfg st0 steps, ∃ pre s post, steps = pre ++ s :: post ∧
       (s.kind = .new ∨ s.kind = .newFinal) ∧
-      h = (s.num, s.id, newPayload fcfg (runSteps fcfg (fs0 st0) pre).st s.num) := by
+      h = (s.num, s.id, newPayload fcfg (runSteps fcfg (fs0 st0) pre).st s.num s.id) := by
   have := client_view fcfg st0 steps hv hne
   rw [hr] at this
   refine ⟨this, ?_, ?_⟩
@@ -228,6 +229,22 @@ theorem valid_prefix (pre post : List FStep) (hv : ValidSteps (pre ++ post)) : V
       simp only [List.cons_append, validFrom, Bool.and_eq_true] at h ⊢
       exact ⟨h.1, ih _ _ h.2⟩
   exact this pre [] none hv
+
+/-- **The blocks of the fork tree are the blocks of the linear specification.**  A block of the fork tree is
+executed (`runBlockF`, the step `handleNew` performs) with the block *number* deciding everything the engine
+decides (initial blocks, the block filter, the scripted failure) and a content that depends on the block's
+identity; for a block whose identity is the canonical one (`saltOf id = 0`, the only kind C01/C04/C07 feed)
+this is exactly the module fold of the linear specification `Lin.runBlock`. -/
+theorem canonical_block_is_linear_block (fcfg : FCfg) (st : LState) (num : Nat) (id : Bytes)
+    (h : saltOf id = 0) :
+    runBlockF fcfg st num id =
+      (usedMods fcfg.world fcfg.output).foldlM
+        (runModule (usedMods fcfg.world fcfg.output) fcfg.maxDepth num) ⟨st, [], [], []⟩ := by
+  unfold runBlockF
+  rw [h, Nat.add_zero]
+  congr 1
+  funext acc m
+  exact runModuleE_self _ _ _ _ _
 
 /-! ## Non-vacuity -/
 
